@@ -15,7 +15,7 @@ ASSOC = {1: 'left', 2: 'left', 3: 'nonassoc', 4: 'left', 5: 'left', 6: 'right'}
 SLICES = {
     "full": None,
     "operators": ['NAME', 'OR', 'AND', 'EQ', 'NE', 'GT', 'LT', 'GTE', 'LTE', 'IN', 'NOT', 'PLUS', 'MINUS', 'TIMES', 'DIVIDE', 'POWER',
-                  'IF', 'ELSE', 'LPAREN', 'RPAREN', 'DOT', 'PIPE', 'LBRACKET', 'RBRACKET'],
+                  'IF', 'ELSE', 'LPAREN', 'RPAREN', 'DOT', 'PIPE', 'LBRACKET', 'RBRACKET', 'LAMBDA'],
     "brackets": ['NAME', 'COMMA', 'COLON', 'LAMBDA', 'DOT', 'PIPE', 'LPAREN', 'RPAREN', 'LBRACKET', 'RBRACKET', 'LBRACE', 'RBRACE'],
     "statements": ['NAME', 'NUMBER', 'ASSIGN', 'SHORT_OP', 'NEWLINE', 'DEL', 'PLUS', 'LBRACKET', 'RBRACKET'],
 }
@@ -80,6 +80,8 @@ def bad_child(parent, side, child):
         return ck in ('bin', 'suffix', 'ifexpr')     # tighter than suffixes and every binary operator
     if pk == 'suffix' and side == 'left':
         return ck in ('bin', 'ifexpr', 'lambda')     # suffixes bind tighter than every binary operator
+    if pk == 'ifexpr' and side == 'left':
+        return ck in ('lambda', 'ifexpr')            # a lambda body / an else-branch extends as far to the right as possible
     if pk == 'index' and side == 'left':
         return ck in ('bin', 'ifexpr', 'lambda', 'uminus', 'not')   # indexing binds tighter than unary minus / not
     return False
@@ -229,7 +231,7 @@ def q_patterns(cx, excludes):
             kind = cx.kinds[p]
             rhs = T.prods[p]["prod"]
             n = len(rhs)
-            if kind[0] not in ('bin', 'uminus', 'not', 'suffix', 'index') or T.path(q, p, n) is None:
+            if kind[0] not in ('bin', 'uminus', 'not', 'suffix', 'index', 'ifexpr') or T.path(q, p, n) is None:
                 continue
             # positions of expression children inside the production
             kids = [m for m, x in enumerate(rhs) if x == 'expression']
@@ -243,7 +245,7 @@ def q_patterns(cx, excludes):
                         continue
                     for idx, m in enumerate(kids):
                         side = 'left' if m == 0 else 'right'
-                        if kind[0] in ('suffix', 'index') and m != 0:
+                        if kind[0] in ('suffix', 'index', 'ifexpr') and m != 0:
                             continue
                         if group != 'all' and group != f"{kind[0]}-{side}":
                             continue
@@ -856,6 +858,8 @@ def tree_violations(tree, toks):
             for x in n.lines:
                 walk(x)
         elif isinstance(n, A.IfExprOp):
+            if bad_child(('ifexpr',), 'left', kind(n.op1)):
+                out.append((('ifexpr',), 'left', kind(n.op1)))
             walk(n.cond), walk(n.op1), walk(n.op2)
         elif isinstance(n, A.LambdaOp):
             walk(n.expr)
